@@ -345,3 +345,16 @@ func normExpr(e ast.Expression) ast.Expression {
 	}
 	return e
 }
+
+// CountKinds counts the expressions of g by kind (index as in KindNames).
+func CountKinds(g *ast.Grammar) (counts [18]int, total int) {
+	for _, r := range g.Rules {
+		WalkExpr(r.Expr, func(e ast.Expression) {
+			if k := KindOf(e); k >= 0 {
+				counts[k]++
+				total++
+			}
+		})
+	}
+	return counts, total
+}
